@@ -1,7 +1,7 @@
 (* Proofs/SchemaInit.v -- the cross-option rules of the constructors (Model/SchemaInit.v) characterised. *)
 From Coq Require Import ZArith QArith List Bool String Lia.
 From Verif.Model Require Import Result Schema SchemaInit.
-From Verif.Proofs Require Import Schema.
+From Verif.Proofs Require Import Schema SchemaIdem SchemaIdem2.
 Import ListNotations.
 Open Scope list_scope.
 
@@ -103,6 +103,24 @@ Section Math.
       + intro H. inversion H. repeat split; try reflexivity. exists sf. split; reflexivity.
       + intros [_ [_ [_ [_ [_ [_ [sf' [Hs' Ho]]]]]]]]. inversion Hs'; subst. reflexivity.
     - split. intro H0. inversion H0. intros [_ [_ [_ [_ [_ [_ [sf' [Hs' _]]]]]]]]. discriminate Hs'.
+  Qed.
+
+  (* the exposed configuration never carries a None-valued user constant, whatever name it has: the entry only
+     deletes the default constant of that name (if there is one) *)
+  Theorem math_rules_prunes_none_constants : forall c uc out,
+    cfg_get "user_constants" c = PDict uc ->
+    math_rules orc dfuncs dvars sf_default sf_value (PDict c) = Ret out ->
+    exists c', out = PDict c' /\ cfg_get "user_constants" c' = PDict (kept_constants uc)
+               /\ forall k v, In (k, v) (kept_constants uc) -> v <> PNone /\ In (k, v) uc.
+  Proof.
+    intros c uc out Huc H.
+    apply (math_rules_accept_iff c uc out _ _ _ Huc eq_refl eq_refl eq_refl) in H.
+    destruct H as [_ [_ [_ [_ [_ [_ [sf [_ ->]]]]]]]].
+    eexists. split; [reflexivity|]. split.
+    - unfold cfg_get. rewrite (dict_get_set_other (zs "sample_from") (zs "user_constants")) by reflexivity.
+      rewrite dict_get_set_same. reflexivity.
+    - intros k v Hin. unfold kept_constants in Hin. apply filter_In in Hin. destruct Hin as [Hin Hv]. simpl in Hv.
+      split; [intro Hn; subst v; discriminate Hv | exact Hin].
   Qed.
 
   (* no simultaneous whitelist and blacklist *)
